@@ -590,7 +590,7 @@ func cmdCheck(args []string) {
 			"mutants_total":             mutTotal,
 			"mutants_reported":          mutCaught,
 			"mutants_missed":            mutMissed,
-			"explanation":              "closure of the property = every function with a contract clause carrying the property's tag plus everything they call (statically, transitively) under contract; every obligation generated from /repo's current source for every function of the closure (postconditions, checks, loop invariants, call-site preconditions and assertions, frame, refinement and safety conditions) must be unsat, whatever tag its clause carries - except lock-discipline obligations, which are solved and counted in C16 only; obligations matching an entry of known_findings.txt are counted separately; vacuity guards (requires/invariants satisfiable, a return reachable) must not be unsat",
+			"explanation":               "closure of the property = every function with a contract clause carrying the property's tag plus everything they call (statically, transitively) under contract; every obligation generated from /repo's current source for every function of the closure (postconditions, checks, loop invariants, call-site preconditions and assertions, frame, refinement and safety conditions) must be unsat, whatever tag its clause carries - except lock-discipline obligations, which are solved and counted in C16 only; obligations matching an entry of known_findings.txt are counted separately; vacuity guards (requires/invariants satisfiable, a return reachable) must not be unsat",
 		},
 	}
 	evFile := *evOut
